@@ -376,6 +376,31 @@ def id_use(chk, program):
         try:
             res, rec = Wr.encode_with(program, meth, [Wr.frame_bytes(8)])
         except (Ab.Unknown, Ab.RaiseSignal) as u:
+            if 'abstract value' in str(u):
+                # the writer tests the addressing values themselves (`x or default`, a range test): decided on two concrete addressings, the
+                # all-zero one (source 0, destination 0, priority 0 are legal) and one without zeros
+                worlds = []
+                try:
+                    for nm, (s_, d_, p_) in (('all-zero', (0, 0, 0)), ('no-zero', (0x21, 0x42, 5))):
+                        m_ = Wr.make_message()
+                        m_.attrs.update(source=Ab.AInt(s_), destination=Ab.AInt(d_), priority=Ab.AInt(p_))
+                        _, rec_ = Wr.encode_with(program, meth, [Wr.frame_bytes(8)], message=m_)
+                        worlds.append((nm, (s_, d_, p_), rec_.header_arg))
+                except (Ab.Unknown, Ab.RaiseSignal) as u2:
+                    chk.unknown('ID-USE', meth, f"writer not interpretable: {u}; on concrete addressing: {u2}", ENC, fn.lineno)
+                    continue
+                if any(a is None for _, _, a in worlds):
+                    chk.unknown('ID-USE', f"{meth}::identifier-of-this-message", 'the writer never calls _build_header: the identifier is built some other way, which this clause does not read', ENC, fn.lineno)
+                    continue
+                bad = []
+                for nm, (s_, d_, p_), a in worlds:
+                    got = [x.v if isinstance(x, Ab.AInt) else repr(x) for x in a[1:4]] if len(a) == 4 else repr(a)
+                    if got != [s_, d_, p_] or not (isinstance(a[0], Ab.AInt) and a[0].vec() is not None and B.trim(a[0].vec()) == [('pgn', k) for k in range(18)]):
+                        bad.append(f"{nm} addressing (source {s_}, destination {d_}, priority {p_}): _build_header receives {got}")
+                chk.check(not bad, 'ID-USE', f"{meth}::identifier-of-this-message", file=ENC, line=fn.lineno, func=meth,
+                          expected='_build_header(message.PGN, message.source, message.destination, message.priority), also when one of them is 0', found='ok (two concrete addressings)' if not bad else bad,
+                          detail='' if not bad else 'a legal address or priority 0 is replaced by a default')
+                continue
             chk.unknown('ID-USE', meth, f"writer not interpretable: {u}", ENC, fn.lineno)
             continue
         if len(direct) == 1:
